@@ -15,7 +15,7 @@ func init() {
 	register("c17", "Broadcast / Fork / Inform over scripted fake clients: server counts 1..4, every outcome vector over {ok, service error, connection lost} "+
 		"(the slowest server of each completion order plays 'slow'), every completion order for n<=3 and sampled orders for n=4, completions released one at a time through gates; "+
 		"direct oracle: Broadcast ok iff all ok, Fork ok iff some ok, on success the reply is that of a server that succeeded, Inform gives one receipt per server with "+
-		"that server's own reply and own error (nil iff it succeeded); every case replayed on the Lean model; non-trivial = at least one failing server; distinct = distinct input line",
+		"that server's own reply and own error (nil iff it succeeded); plus vectors whose last server does not answer before the caller's deadline (a context the harness expires once the others have answered; the abandoned call winds up 4 ms later); every case replayed on the Lean model; non-trivial = at least one failing server; distinct = distinct input line",
 		runC17)
 }
 
